@@ -77,33 +77,51 @@ Proof.
   rewrite <- (f_pow r F). apply cong_mod. exact Hk.
 Qed.
 
+(* dev profile (kept in this form: Sample/SampleOpsProofs.v of C03 uses it) *)
 Lemma tbl_arith_debug : forall r, In r types_table -> forall o a b, in_range r a -> in_range r b ->
   (in_range r (exact o a b) -> arith dev r o a b = Ok (exact o a b)) /\
-  (~ in_range r (exact o a b) ->
-     arith dev r o a b = Panic (if in_ity (rep r) (exact o a b) then PExpect else POverflow)).
-Proof. intros r Hr o a b _ _. exact (arith_dev r o a b (table_facts r Hr)). Qed.
+  (~ in_range r (exact o a b) -> arith dev r o a b = Panic PExpect).
+Proof. intros r Hr o a b. exact (arith_dev r o a b (table_facts r Hr)). Qed.
 
-Lemma tbl_arith_release : forall r, In r types_table -> forall o a b, in_range r a -> in_range r b ->
-  exists w, arith release r o a b = Ok w /\ in_range r w /\ (w - exact o a b) mod 2 ^ nbits r = 0.
+Lemma tbl_arith_debug_any : forall r, In r types_table -> forall c, debug_assertions c = true ->
+  forall o a b, in_range r a -> in_range r b ->
+  (in_range r (exact o a b) -> arith c r o a b = Ok (exact o a b)) /\
+  (~ in_range r (exact o a b) -> arith c r o a b = Panic PExpect).
+Proof. intros r Hr c Hc o a b. exact (arith_debug c r o a b (table_facts r Hr) Hc). Qed.
+
+Lemma tbl_arith_nodebug_any : forall r, In r types_table -> forall c, debug_assertions c = false ->
+  forall o a b, in_range r a -> in_range r b ->
+  exists w, arith c r o a b = Ok w /\ in_range r w /\ (w - exact o a b) mod 2 ^ nbits r = 0.
 Proof.
-  intros r Hr o a b Ha Hb. pose proof (table_facts r Hr) as F.
-  destruct (arith_release r o a b F Ha Hb) as (w & E & Hin & Hk).
+  intros r Hr c Hc o a b Ha Hb. pose proof (table_facts r Hr) as F.
+  destruct (arith_nodebug c r o a b F Hc Ha Hb) as (w & E & Hin & Hk).
   exists w. split; [exact E|]. split; [exact Hin|].
   rewrite <- (f_pow r F). apply cong_mod. exact Hk.
 Qed.
 
-Lemma tbl_neg_debug : forall r, In r types_table -> has_neg r = true -> forall a, in_range r a ->
-  (in_range r (- a) -> neg dev r a = Ok (- a)) /\
-  (~ in_range r (- a) -> neg dev r a = Panic (if in_ity (rep r) (- a) then PExpect else POverflow)).
-Proof. intros r Hr _ a _. exact (neg_dev r a (table_facts r Hr)). Qed.
+Lemma tbl_neg_debug_any : forall r, In r types_table -> has_neg r = true ->
+  forall c, debug_assertions c = true -> forall a, in_range r a ->
+  (in_range r (- a) -> neg c r a = Ok (- a)) /\
+  (~ in_range r (- a) -> neg c r a = Panic PExpect).
+Proof. intros r Hr _ c Hc a. exact (neg_debug c r a (table_facts r Hr) Hc). Qed.
 
-Lemma tbl_neg_release : forall r, In r types_table -> has_neg r = true -> forall a, in_range r a ->
-  exists w, neg release r a = Ok w /\ in_range r w /\ (w - - a) mod 2 ^ nbits r = 0.
+Lemma tbl_neg_nodebug_any : forall r, In r types_table -> has_neg r = true ->
+  forall c, debug_assertions c = false -> forall a, in_range r a ->
+  exists w, neg c r a = Ok w /\ in_range r w /\ (w - - a) mod 2 ^ nbits r = 0.
 Proof.
-  intros r Hr _ a Ha. pose proof (table_facts r Hr) as F.
-  destruct (neg_nodebug release r a F eq_refl Ha) as (w & E & Hin & Hk).
+  intros r Hr _ c Hc a Ha. pose proof (table_facts r Hr) as F.
+  destruct (neg_nodebug c r a F Hc Ha) as (w & E & Hin & Hk).
   exists w. split; [exact E|]. split; [exact Hin|].
   rewrite <- (f_pow r F). apply cong_mod. exact Hk.
+Qed.
+
+Lemma tbl_overflow_checks_irrelevant : forall r, In r types_table ->
+  forall c c', debug_assertions c = debug_assertions c' -> forall a b, in_range r a -> in_range r b ->
+  (forall o, arith c r o a b = arith c' r o a b) /\ neg c r a = neg c' r a.
+Proof.
+  intros r Hr c c' Hd a b Ha Hb. pose proof (table_facts r Hr) as F. split.
+  - intros o. apply arith_oc_irrelevant; assumption.
+  - apply neg_oc_irrelevant; assumption.
 Qed.
 
 Lemma tbl_never_outside : forall r, In r types_table -> forall c a b w, in_range r a -> in_range r b ->
@@ -121,30 +139,15 @@ Proof.
   apply (wrapped_unique r w1 w2 F H1 H2). rewrite (f_pow r F). exact Hk.
 Qed.
 
-Lemma tbl_any_wellformed_row : forall r, row_ok r -> forall o a b, in_range r a -> in_range r b ->
-  (in_range r (exact o a b) -> arith dev r o a b = Ok (exact o a b)) /\
-  (~ in_range r (exact o a b) -> exists k, arith dev r o a b = Panic k) /\
-  (exists w, arith release r o a b = Ok w /\ in_range r w /\ (w - exact o a b) mod 2 ^ nbits r = 0).
+Lemma tbl_any_wellformed_row : forall r, row_ok r -> forall c o a b, in_range r a -> in_range r b ->
+  (debug_assertions c = true ->
+     (in_range r (exact o a b) -> arith c r o a b = Ok (exact o a b)) /\
+     (~ in_range r (exact o a b) -> arith c r o a b = Panic PExpect)) /\
+  (debug_assertions c = false ->
+     exists w, arith c r o a b = Ok w /\ in_range r w /\ (w - exact o a b) mod 2 ^ nbits r = 0).
 Proof.
-  intros r Hok o a b Ha Hb. pose proof (row_ok_facts r Hok) as F.
-  destruct (arith_dev r o a b F) as [H1 H2]. split; [exact H1|]. split.
-  - intros H. eexists. exact (H2 H).
-  - destruct (arith_release r o a b F Ha Hb) as (w & E & Hin & Hk).
+  intros r Hok c o a b Ha Hb. pose proof (row_ok_facts r Hok) as F. split; intros Hc.
+  - exact (arith_debug c r o a b F Hc Ha Hb).
+  - destruct (arith_nodebug c r o a b F Hc Ha Hb) as (w & E & Hin & Hk).
     exists w. split; [exact E|]. split; [exact Hin|]. rewrite <- (f_pow r F). apply cong_mod. exact Hk.
-Qed.
-
-Lemma tbl_mixed_profile_silent_wrap_refuted :
-  exists r a b, In r types_table /\ in_range r a /\ in_range r b /\ ~ in_range r (a * b) /\
-                arith (mkCfg true false) r OMul a b = Ok 0.
-Proof.
-  exists row_I11, 256, 256. split; [cbv [types_table In]; tauto|].
-  unfold in_range. vm_compute. repeat split; try discriminate. intros [_ H]. apply H. reflexivity.
-Qed.
-
-Lemma tbl_mixed_profile_release_panic_refuted :
-  exists r a b, In r types_table /\ in_range r a /\ in_range r b /\
-                arith (mkCfg false true) r OMul a b = Panic POverflow.
-Proof.
-  exists row_I11, 1023, 1023. split; [cbv [types_table In]; tauto|].
-  unfold in_range. vm_compute. repeat split; discriminate.
 Qed.
